@@ -44,6 +44,39 @@ def check(ck: Checker) -> None:
 
     _r7.ensure_loaded_by_kind(ck, "C17.accessors")
     _r7.view_loads_only_unloaded(ck, "C17.viewguard")
+    _root_readable(ck)
+
+
+def _root_readable(ck: Checker) -> None:
+    """DataIndexView.__getitem__: the root key () is served whatever the filter says (info(()), diff and the fs adaptor
+    start from it): no `raise` of the method's own is reachable for the root key."""
+    from ..an import cut
+
+    m = ck.prog.cls("index.view", "DataIndexView").methods.get("__getitem__")
+    if m is None:
+        raise AnalysisError("DataIndexView.__getitem__ vanished")
+    g = ck.cfg(m)
+    key = m.pos_params[1] if len(m.pos_params) > 1 else "key"
+    raises = [n for n in g.nodes.values() if n.kind == "stmt" and isinstance(n.ast, ast.Raise)]
+
+    def not_root(t, lab):
+        if t.kind != "test":
+            return False
+        e = t.ast
+        if isinstance(e, ast.Name) and e.id == key:
+            return lab == "T"
+        if isinstance(e, ast.Compare) and len(e.ops) == 1 and isinstance(e.ops[0], (ast.Eq, ast.NotEq)):
+            sides = {norm(e.left), norm(e.comparators[0])}
+            if key in sides and sides & {"()", "ROOT", "tuple()"}:
+                return (isinstance(e.ops[0], ast.Eq) and lab == "F") or (isinstance(e.ops[0], ast.NotEq) and lab == "T")
+        return False
+
+    for n in raises:
+        w = cut(g, [n.id], not_root)
+        ck.require(w is None, "C17.viewguard", m, n, "the view's own KeyError is raised only for a non-root key",
+                   "DataIndexView.__getitem__ can raise for the root key () when the filter rejects it: info(()), diff() and the filesystem adaptor over a prefix-filtered view start from the root and now fail or come back empty",
+                   witness=g.fmt_path(w) if w else None, construct=f"{n.text()[:40]} / root exempt")
+    ck.floor("C17.viewguard", len(raises), 1, "raise sites of DataIndexView.__getitem__ (filtered keys are refused)")
 
 
 
